@@ -11,7 +11,7 @@ PROPS['C02'] = dict(
   technique='static analysis: decoded dispatch tables checked against a licence predicate (T-TAB), sibling agreement of table rows, cache-key coverage, fail-before-write path query and dropped-status (T-ERR) with a depth-set discharge',
   text='Decides for all 506 composite and 68 iterator table entries of every implementation the build compiles (including MMX/C entries that SSE2 shadows in every test run) that the entry pins accessors, alpha map, '
        'narrowness, filter kind and sampling geometry for every image a raw routine reads; that each routine is registered only for layouts of one depth/channel order; that the chain ends in catch-alls; that the '
-       'fast-path cache key covers all seven members; that blt/fill primitives return FALSE only before writing and that no caller drops that status unless its table rows guarantee the depth. Necessary conditions of implementation equivalence; the pixel arithmetic of the routines is not decided.',
+       'fast-path cache key covers all seven members; that blt/fill primitives return FALSE only before writing and that no caller drops that status unless its table rows guarantee the depth. and that each of the 44 SSE2/MMX combiners computes s*Fa + d*Fb with the factors of its operator slot (symbolic execution over the helper vocabulary, unified and component alpha, scalar and vector loops). Necessary conditions of implementation equivalence; rounding and the composite fast-path bodies are not decided.',
   note='Trusted: clang-14 IR = built program; the licence predicate (closed list of flag shapes) transcribed from pixman-private.h semantics and calibrated to 0 deviations on the pinned tree. Non-x86 SIMD units are not compiled by this build and not analysed.')
 PROPS['C14'] = dict(
   technique='static analysis: computed derived/input field sets of the validate closure, must-pass-through (every input write reaches a dirty mark), who-may-write, guard-completeness of early returns, reference/counter pairing',
@@ -48,7 +48,8 @@ PROPS['C19'] = dict(
 PROPS['C01'] = dict(
   technique='static analysis: operator-slot exhaustiveness against the public enum (T-EXH), symbolic factor extraction from the float combiners compared with the Render table by rational normal form (T-ALG)',
   text='Decides for all 53 operators that the pipeline general_composite_rect can select has a combiner (float always, 32-bit wherever needs_division is 0), and for the 38 Porter-Duff/disjoint/conjoint operators x {unified, component alpha} that the registered float combiner computes min(1, s*Fa + d*Fb) '
-       'with exactly the Render factors: each factor is read out of the IR of the factor switch (zero guard, clamp, rational expression) and compared symbolically (sympy) with the specification, including the observable division-by-zero defaults. A wrong or swapped factor, a slot registered under the wrong operator, or a missing slot is reported by operator.',
+       'with exactly the Render factors: each factor is read out of the IR of the factor switch (zero guard, clamp, rational expression) and compared symbolically (sympy) with the specification, including the observable division-by-zero defaults. A wrong or swapped factor, a slot registered under the wrong operator, or a missing slot is reported by operator. '
+       'The same factor comparison is made for the 25 8-bit C combiners of pixman-combine32.c (symbolic execution over a derived header that makes the UN8x4_* primitives opaque; shortcut branches are discharged by ideal membership under their own condition) and for the 44 SSE2/MMX combiners over the repository\'s helper vocabulary — code that SSE2 shadows in every test run.',
   note='Trusted: clang-14 IR = built program; the Render factor table (DESIGN Appendix B.1). Not decided: 8-bit rounding macros, PDF blend formulas, SIMD combiners, fetch/store and quantisation.')
 PROPS['C09'] = dict(
   technique='static analysis: finite rewriting of Porter-Duff factor pairs under sa:=1 / da:=1 against the decoded operator_table (T-ALG)',
